@@ -80,8 +80,12 @@ func solveOne(file string, timeoutS int, both bool) (win solveOut, all []solveOu
 		start(2)
 	}
 	got := 0
+	var deadline <-chan time.Time
 	for got < started || started < len(solvers) {
 		select {
+		case <-deadline:
+			// thorough: the other solvers had their extra time
+			return win, all
 		case r := <-ch:
 			got++
 			all = append(all, r)
@@ -91,6 +95,9 @@ func solveOne(file string, timeoutS int, both bool) (win solveOut, all []solveOu
 				}
 				if !both {
 					return win, all
+				}
+				if deadline == nil {
+					deadline = time.After(8 * time.Second)
 				}
 			}
 			if got == started && started < len(solvers) {
